@@ -39,7 +39,7 @@ Qed.
 
 Definition supplied (cfg : config) (g : prog) (id : nid) : Prop :=
   In id (map snd (c_globals cfg)) \/
-  exists form p pkg x, In (form, p) (g_imports g) /\ c_importer cfg p = Some pkg /\ In (x, id) (p_decls pkg).
+  exists form p pkg x, In (form, p) (g_imports g) /\ c_importer cfg p = APkg pkg /\ In (x, id) (p_decls pkg).
 
 Definition binding_ok (S : nid -> Prop) (b : binding) : Prop :=
   match b with
@@ -92,22 +92,22 @@ Qed.
 (* ---- imports ---- *)
 
 Lemma check_imports_spec cfg (S : nid -> Prop) imps : forall file asked file' asked',
-  (forall form p pkg x id, In (form, p) imps -> c_importer cfg p = Some pkg -> In (x, id) (p_decls pkg) -> S id) ->
+  (forall form p pkg x id, In (form, p) imps -> c_importer cfg p = APkg pkg -> In (x, id) (p_decls pkg) -> S id) ->
   scope_ok S file ->
   check_imports cfg imps file asked = inl (file', asked') ->
   scope_ok S file' /\ asked' = asked ++ map snd imps /\
-  Forall (fun ip => exists pkg, c_importer cfg (snd ip) = Some pkg) imps.
+  Forall (fun ip => exists pkg, c_importer cfg (snd ip) = APkg pkg) imps.
 Proof.
   induction imps as [|[form p] r IH]; intros file asked file' asked' HS Hok Hc; cbn [check_imports] in Hc.
   - injection Hc as <- <-. split; [exact Hok|]. split; [rewrite app_nil_r; reflexivity|constructor].
-  - destruct (c_importer cfg p) as [pkg|] eqn:Himp; [|discriminate].
-    assert (HSr : forall form p pkg x id, In (form, p) r -> c_importer cfg p = Some pkg -> In (x, id) (p_decls pkg) -> S id)
+  - destruct (c_importer cfg p) as [pkg| |] eqn:Himp; [|discriminate|discriminate].
+    assert (HSr : forall form p pkg x id, In (form, p) r -> c_importer cfg p = APkg pkg -> In (x, id) (p_decls pkg) -> S id)
       by (intros; eapply HS; [right|..]; eassumption).
     assert (Hpkg : forall x id, In (x, id) (p_decls pkg) -> S id)
       by (intros; eapply HS; [left; reflexivity|eassumption|eassumption]).
     assert (Hfin : forall file1, scope_ok S file1 -> check_imports cfg r file1 (asked ++ [p]) = inl (file', asked') ->
               scope_ok S file' /\ asked' = asked ++ map snd ((form, p) :: r) /\
-              Forall (fun ip => exists pkg, c_importer cfg (snd ip) = Some pkg) ((form, p) :: r)).
+              Forall (fun ip => exists pkg, c_importer cfg (snd ip) = APkg pkg) ((form, p) :: r)).
     { intros file1 Hok1 Hc1. destruct (IH _ _ _ _ HSr Hok1 Hc1) as (H1 & H2 & H3).
       split; [exact H1|]. split; [rewrite H2; cbn [map snd]; rewrite <- app_assoc; reflexivity|].
       constructor; [exists pkg; exact Himp|exact H3]. }
@@ -177,7 +177,7 @@ Qed.
 
 Theorem imports_from_importer cfg g o : check cfg g = inl o ->
   o_asked o = map snd (g_imports g) /\
-  Forall (fun ip => exists pkg, c_importer cfg (snd ip) = Some pkg) (g_imports g).
+  Forall (fun ip => exists pkg, c_importer cfg (snd ip) = APkg pkg) (g_imports g).
 Proof.
   unfold check. destruct (check_imports cfg (g_imports g) [] []) as [[file0 asked]|] eqn:Hi; [|discriminate].
   destruct (check_imports_spec cfg (fun _ => True) _ _ _ _ _ (fun _ _ _ _ _ _ _ _ => I) (Forall_nil _) Hi) as (_ & Ha & Hall).
@@ -189,7 +189,7 @@ Theorem natives_closed cfg g o : check cfg g = inl o -> Forall (supplied cfg g) 
 Proof.
   unfold check. destruct (check_imports cfg (g_imports g) [] []) as [[file0 asked]|] eqn:Hi; [|discriminate].
   set (S := supplied cfg g).
-  assert (HS : forall form p pkg x id, In (form, p) (g_imports g) -> c_importer cfg p = Some pkg -> In (x, id) (p_decls pkg) -> S id).
+  assert (HS : forall form p pkg x id, In (form, p) (g_imports g) -> c_importer cfg p = APkg pkg -> In (x, id) (p_decls pkg) -> S id).
   { intros form p pkg x id H1 H2 H3. right. exists form, p, pkg, x. auto. }
   destruct (check_imports_spec cfg S _ _ _ _ _ HS (Forall_nil _) Hi) as (Hf0 & _ & _).
   assert (Hfile : scope_ok S (fold_left (fun s f => declare s f BScriggo) (g_funcs g) file0)).
@@ -229,11 +229,81 @@ Proof.
   destruct (H (g_body g) [] a0 Hg) as (e & He). rewrite He in Hc. discriminate.
 Qed.
 
-(* an import of a path outside the importer's domain makes the build fail *)
-Theorem unknown_import_fails cfg g form p :
-  In (form, p) (g_imports g) -> c_importer cfg p = None -> exists e, check cfg g = inr e.
+(* an import of a path for which the importer does not answer with a package
+   (it does not have it, or it returns an error) makes the build fail *)
+Theorem unanswered_import_fails cfg g form p :
+  In (form, p) (g_imports g) -> (forall pkg, c_importer cfg p <> APkg pkg) -> exists e, check cfg g = inr e.
 Proof.
   intros Hin Hnone. destruct (check cfg g) as [o|e] eqn:Hc; [|eexists; reflexivity].
   destruct (imports_from_importer _ _ _ Hc) as (_ & Hall). rewrite Forall_forall in Hall.
-  destruct (Hall _ Hin) as (pkg & Hp). cbn in Hp. congruence.
+  destruct (Hall _ Hin) as (pkg & Hp). cbn in Hp. exfalso. exact (Hnone pkg Hp).
+Qed.
+
+Theorem unknown_import_fails cfg g form p :
+  In (form, p) (g_imports g) -> c_importer cfg p = ANone -> exists e, check cfg g = inr e.
+Proof.
+  intros Hin Hnone. apply (unanswered_import_fails cfg g form p Hin). intros pkg H. congruence.
+Qed.
+
+(* ---- native.CombinedImporter: the first answer that is not (nil, nil) ---- *)
+
+Lemma combined_first ms p a : a <> ANone ->
+  (combined ms p = a <->
+   exists pre m post, ms = pre ++ m :: post /\ Forall (fun m' => m' p = ANone) pre /\ m p = a).
+Proof.
+  intros Ha. induction ms as [|m0 r IH]; cbn [combined].
+  - split; [intros H; congruence|]. intros (pre & m & post & H & _). destruct pre; discriminate.
+  - destruct (m0 p) as [pkg| |] eqn:E.
+    + split.
+      * intros <-. exists [], m0, r. repeat split; [constructor|exact E].
+      * intros (pre & m & post & H & Hpre & Hm). destruct pre as [|m1 pre]; cbn in H; injection H as -> ->.
+        -- congruence.
+        -- inversion Hpre; congruence.
+    + rewrite IH. split.
+      * intros (pre & m & post & -> & Hpre & Hm). exists (m0 :: pre), m, post. repeat split; [constructor; assumption|exact Hm].
+      * intros (pre & m & post & H & Hpre & Hm). destruct pre as [|m1 pre]; cbn in H; injection H as -> ->.
+        -- congruence.
+        -- exists pre, m, post. inversion Hpre; auto.
+    + split.
+      * intros <-. exists [], m0, r. repeat split; [constructor|exact E].
+      * intros (pre & m & post & H & Hpre & Hm). destruct pre as [|m1 pre]; cbn in H; injection H as -> ->.
+        -- congruence.
+        -- inversion Hpre; congruence.
+Qed.
+
+Lemma combined_none ms p : combined ms p = ANone <-> Forall (fun m => m p = ANone) ms.
+Proof.
+  induction ms as [|m r IH]; cbn [combined]; [split; [constructor|reflexivity]|].
+  destruct (m p) eqn:E; (split; [intros H|intros H; inversion H; subst]); try congruence.
+  constructor; [exact E|apply IH, H]. apply IH. assumption.
+Qed.
+
+(* a member that answers a path with an error, all earlier members not having
+   the path, vetoes it: whatever the later members have, a program that
+   imports the path does not build *)
+Theorem combined_veto_fails cfg g form p pre m post :
+  c_importer cfg = combined (pre ++ m :: post) ->
+  Forall (fun m' => m' p = ANone) pre -> m p = AErr ->
+  In (form, p) (g_imports g) -> exists e, check cfg g = inr e.
+Proof.
+  intros Hc Hpre Hm Hin. apply (unanswered_import_fails cfg g form p Hin). intros pkg H.
+  rewrite Hc in H. assert (Hne : AErr <> ANone) by discriminate.
+  assert (He : combined (pre ++ m :: post) p = AErr).
+  { apply (combined_first _ p AErr Hne). exists pre, m, post. auto. }
+  congruence.
+Qed.
+
+(* if the build succeeds the package of every imported path is the one of the
+   first member that has it, every earlier member answering (nil, nil) *)
+Theorem combined_package_from_first cfg g o ms :
+  c_importer cfg = combined ms -> check cfg g = inl o ->
+  Forall (fun ip => exists pre m post pkg, ms = pre ++ m :: post /\
+            Forall (fun m' => m' (snd ip) = ANone) pre /\ m (snd ip) = APkg pkg /\
+            c_importer cfg (snd ip) = APkg pkg) (g_imports g).
+Proof.
+  intros Hc Hok. destruct (imports_from_importer _ _ _ Hok) as (_ & Hall).
+  rewrite Forall_forall in *. intros ip Hin. destruct (Hall ip Hin) as (pkg & Hp).
+  assert (Hne : APkg pkg <> ANone) by discriminate.
+  pose proof Hp as Hp'. rewrite Hc in Hp'. apply (combined_first ms (snd ip) (APkg pkg) Hne) in Hp'.
+  destruct Hp' as (pre & m & post & H1 & H2 & H3). exists pre, m, post, pkg. auto.
 Qed.
